@@ -24,6 +24,10 @@ type Cache struct {
 	Calls int
 	// Trace, when non-nil, receives "method key..." per call.
 	Trace *[]string
+	// OnLocked, when set, is told the keys of every Lock/DualLock call that succeeded (lock ownership tracking).
+	OnLocked func(keys []*sop.LockKey)
+	// OnSet, when set, is told keys and values of every SetStruct/SetStructs call that succeeded.
+	OnSet func(keys []string, values []interface{})
 }
 
 func New(inner sop.L2Cache, typ sop.L2CacheType) *Cache { return &Cache{inner: inner, typ: typ} }
@@ -106,14 +110,22 @@ func (c *Cache) Lock(ctx context.Context, d time.Duration, lk []*sop.LockKey) (b
 	if err != nil {
 		return false, sop.NilUUID, err
 	}
-	return in.Lock(ctx, d, lk)
+	ok, id, err := in.Lock(ctx, d, lk)
+	if ok && err == nil && c.OnLocked != nil {
+		c.OnLocked(lk)
+	}
+	return ok, id, err
 }
 func (c *Cache) DualLock(ctx context.Context, d time.Duration, lk []*sop.LockKey) (bool, sop.UUID, error) {
 	in, err := c.pt("DualLock", lkeys(lk))
 	if err != nil {
 		return false, sop.NilUUID, err
 	}
-	return in.DualLock(ctx, d, lk)
+	ok, id, err := in.DualLock(ctx, d, lk)
+	if ok && err == nil && c.OnLocked != nil {
+		c.OnLocked(lk)
+	}
+	return ok, id, err
 }
 func (c *Cache) IsLocked(ctx context.Context, lk []*sop.LockKey) (bool, error) {
 	in, err := c.pt("IsLocked", lkeys(lk))
@@ -170,14 +182,22 @@ func (c *Cache) SetStruct(ctx context.Context, key string, v interface{}, exp ti
 	if err != nil {
 		return err
 	}
-	return in.SetStruct(ctx, key, v, exp)
+	err = in.SetStruct(ctx, key, v, exp)
+	if err == nil && c.OnSet != nil {
+		c.OnSet([]string{key}, []interface{}{v})
+	}
+	return err
 }
 func (c *Cache) SetStructs(ctx context.Context, keys []string, vs []interface{}, exp time.Duration) error {
 	in, err := c.pt("SetStructs", keys)
 	if err != nil {
 		return err
 	}
-	return in.SetStructs(ctx, keys, vs, exp)
+	err = in.SetStructs(ctx, keys, vs, exp)
+	if err == nil && c.OnSet != nil {
+		c.OnSet(keys, vs)
+	}
+	return err
 }
 func (c *Cache) GetStruct(ctx context.Context, key string, target interface{}) (bool, error) {
 	in, err := c.pt("GetStruct", []string{key})
